@@ -64,7 +64,7 @@ def worker(args):
 
         def _alarm(signum, frame):
             raise _Budget()
-        budget = int(os.environ.get("PYVC_TARGET_BUDGET_S", "0") or 0) or (2400 if want_smt2 else 600)
+        budget = int(os.environ.get("PYVC_TARGET_BUDGET_S", "0") or 0) or (7200 if want_smt2 else 3600)
         signal.signal(signal.SIGALRM, _alarm)
         signal.alarm(budget)
         try:
@@ -89,7 +89,7 @@ def worker(args):
             # reachability cover of every completed path (vacuity guard)
             if oc not in ("cut", "unsupported"):
                 s = z3.Solver()
-                s.set("timeout", 5000)
+                s.set("timeout", 120000)
                 for t in p.pc:
                     s.add(t)
                 out["covers"] += 1
@@ -175,7 +175,7 @@ def replay(pid, res, ob):
         env = dict(os.environ)
         env["PYTHONPATH"] = HERE + os.pathsep + REPO
         try:
-            r = subprocess.run([VENV_PY, "-m", "pyvc.replay", path], capture_output=True, text=True, timeout=120, env=env, cwd=HERE)
+            r = subprocess.run([VENV_PY, "-m", "pyvc.replay", path], capture_output=True, text=True, timeout=900, env=env, cwd=HERE)
             outtxt = (r.stdout + r.stderr)[-3000:]
             confirmed = r.returncode == 0
         except subprocess.TimeoutExpired:
@@ -208,7 +208,8 @@ def main(argv=None):
         return 3
     P = PROPS[a.pid]
     thorough = a.tier == "thorough"
-    timeout_ms = 120000 if thorough else 60000
+    # wall-clock budgets are sized for a machine whose 16 cores are shared with other checks (slowest obligation alone: ~11 s)
+    timeout_ms = 1200000 if thorough else 600000
     filters = {}
     targets = []
     for t in P["targets"]:
@@ -271,7 +272,7 @@ def main(argv=None):
                     continue
                 env = dict(os.environ)
                 env["PYVC_REPO"] = wt
-                cr = subprocess.run([sys.executable, "-m", "pyvc.prop", a.pid, "--tier", "quick"], capture_output=True, text=True, env=env, cwd=HERE, timeout=3000)
+                cr = subprocess.run([sys.executable, "-m", "pyvc.prop", a.pid, "--tier", "quick"], capture_output=True, text=True, env=env, cwd=HERE, timeout=14400)
                 canary["run"] += 1
                 if "VIOLATION property=" in cr.stdout:
                     canary["killed"] += 1
